@@ -1823,8 +1823,16 @@ func (t *ftr) block(list []ast.Stmt, k func() string) string {
 			return t.letIn(binds[i].name, binds[i].typ, binds[i].val, func() string { return bindAll(i + 1) })
 		}
 		return t.wrapPending(pend, bindAll(0))
+	case *ast.DeferStmt:
+		if isMutexCall(t.pi, s.Call) {
+			return restK() // defer mu.Unlock(): locks are no-ops in the translation (one thread's view)
+		}
+		t.bad(s, "defer statement (only a deferred sync.Mutex / RWMutex unlock is accepted, as a no-op)")
 	case *ast.ExprStmt:
 		if c, ok := s.X.(*ast.CallExpr); ok {
+			if isMutexCall(t.pi, c) {
+				return restK() // mu.Lock() / mu.Unlock(): no-ops, the translation describes one thread's view
+			}
 			if recvX, nres, ok := t.mutatorCall(c); ok {
 				t.mutCallOK = true
 				call := t.expr(c)
@@ -1881,6 +1889,24 @@ func (t *ftr) block(list []ast.Stmt, k func() string) string {
 	}
 	t.bad(s, "unsupported statement %T", s)
 	return ""
+}
+
+// isMutexCall: Lock / Unlock / RLock / RUnlock on a sync.Mutex or sync.RWMutex.
+func isMutexCall(pi *pkgInfo, c *ast.CallExpr) bool {
+	sel, ok := c.Fun.(*ast.SelectorExpr)
+	if !ok {
+		return false
+	}
+	fn, ok := pi.info.Uses[sel.Sel].(*types.Func)
+	if !ok {
+		return false
+	}
+	switch fn.FullName() {
+	case "(*sync.Mutex).Lock", "(*sync.Mutex).Unlock", "(*sync.RWMutex).Lock", "(*sync.RWMutex).Unlock",
+		"(*sync.RWMutex).RLock", "(*sync.RWMutex).RUnlock":
+		return true
+	}
+	return false
 }
 
 // hasOwnBreak: a break statement that leaves this loop (not one of a nested loop).
